@@ -301,7 +301,7 @@ func TestC08(t *testing.T) {
 
 	expr := c08Expr.On(col, "rapid: (a) lookup paths of 1..5 steps (dot and bracket spelling, first/last/size, valid/negative/out-of-range/non-integer indices, steps that go astray so that nil appears mid-path) over generated nested bindings of depth <= 3 with and without a size key; (b) expression trees up to depth 5 over literals, variables, lookups, ranges and filters; printed with random spacing and quoting; rendered in normal and strict-variables mode. Oracle: reference model (nil prints as the empty string; strict mode: error iff the final value is nil, otherwise the same output). Non-trivial: specified and depth >= 2; distinct by expression+bindings+mode", false)
 	prof := hx.FullProfile()
-	col.Rapid(expr.Sub, env.PerShard(env.Pick(30000, 1500000)), func(t *rapid.T) {
+	col.Rapid(expr.Sub, env.PerShard(env.Pick(200000, 2000000)), func(t *rapid.T) {
 		binds := hx.GenBindings(t, prof)
 		c := &c08ExprCase{Binds: binds, Sp: hx.GenSpacing(t, "sp"), Strict: rapid.IntRange(0, 2).Draw(t, "strict") == 0}
 		if rapid.Bool().Draw(t, "path") {
@@ -334,7 +334,7 @@ func TestC08(t *testing.T) {
 			c08Filters = append(c08Filters, fsig{f, "S", nil, "X"})
 		}
 	}
-	col.Rapid(pipe.Sub, env.PerShard(env.Pick(30000, 1500000)), func(t *rapid.T) {
+	col.Rapid(pipe.Sub, env.PerShard(env.Pick(200000, 2000000)), func(t *rapid.T) {
 		c := genPipe(t)
 		if v := pipe.Run(c); v != nil {
 			t.Fatalf("%s", v.Message)
@@ -344,7 +344,7 @@ func TestC08(t *testing.T) {
 	space := c08Space.On(col, "rapid: generated programs (objects, assign, if/unless/case, for/tablerow headers with modifiers, cycle, capture) printed under two independent whitespace policies (none where the lexer allows it, spaces, tabs, newlines, CR-LF at every lexical boundary); metamorphic oracle: both spellings render identically. Non-trivial: the two spellings differ and render successfully; distinct by the pair of sources", false)
 	prof3 := hx.FullProfile()
 	prof3.Tablerow = true
-	col.Rapid(space.Sub, env.PerShard(env.Pick(20000, 1000000)), func(t *rapid.T) {
+	col.Rapid(space.Sub, env.PerShard(env.Pick(150000, 1500000)), func(t *rapid.T) {
 		c := &c08SpaceCase{P: hx.GenProgram(t, prof3), Sp1: hx.GenSpacing(t, "sp1"), Sp2: rapid.SliceOfN(rapid.IntRange(0, 5), 1, 12).Draw(t, "sp2")}
 		if v := space.Run(c); v != nil {
 			t.Fatalf("%s", v.Message)
